@@ -87,9 +87,12 @@ def R1_case_split(run):
         for bi, bb in enumerate(fn.blocks):
             if bb["t"]["k"] == "ret":
                 rets = [r for r in leaves(pv.local(0, bi, len(bb["s"]))) if r[0] == "agg" and r[2] == "Ok"]
-                ok = len(rets) == 1 and dict(rets[0][3])["0"][0] == "tuple"
+                # the pair may be built once from two merged components or once per case: collect both components over all forms
+                tups = [x for r in rets for x in leaves(dict(r[3])["0"])]
+                ok = bool(tups) and all(x[0] == "tuple" and len(x[1]) == 2 for x in tups)
                 if ok:
-                    ta, tb = dict(rets[0][3])["0"][1]
+                    ta = ("phi", frozenset(y for x in tups for y in leaves(x[1][0])))
+                    tb = ("phi", frozenset(y for x in tups for y in leaves(x[1][1])))
                     ok = all(const_val(x) == 0 or is_call(x, "get_amount_delta_a") for x in leaves(ta)) and all(const_val(x) == 0 or is_call(x, "get_amount_delta_b") for x in leaves(tb)) \
                         and any(is_call(x, "get_amount_delta_a") for x in leaves(ta)) and any(is_call(x, "get_amount_delta_b") for x in leaves(tb))
                 run.check("R1", "result-order@" + short, ok, "%s does not return (delta_a, delta_b) in that order" % path, loc=fn.loc(), detail="Ok((delta_a | 0, delta_b | 0))")
@@ -235,6 +238,40 @@ def R3_caller_limits(run):
             ok = ok and s[0] == "field" and is_call(s[1], "pino_calculate_liquidity_token_deltas") and len(sides) == 1 and s[2] == ("0" if list(sides)[0] == "a" else "1")
             run.check("R3", "transfer-amount:%s:l%d" % (h, t["l"] - fn.line), ok, "%s transfers %s with accounts %s: amount, mint and accounts are not all on one side" % (h, pino.cshow(amt), slots),
                       loc=fn.loc(t["l"]), detail="side %s: %s" % (sorted(sides), pino.cshow(amt)[:80]))
+    # every limit check is on every success path (a check that is skipped when the amount is zero lets a withdrawal of nothing
+    # satisfy a positive minimum), in the Pinocchio handlers and in the Anchor reference handlers
+    anchor_handlers = [("instructions::increase_liquidity::handler", True, False), ("instructions::v2::increase_liquidity::handler", True, True),
+                       ("instructions::decrease_liquidity::handler", False, False), ("instructions::v2::decrease_liquidity::handler", False, True)]
+    for path, inc, v2 in [(PI + h + "::handler", i, v) for h, i, v in HANDLERS] + anchor_handlers:
+        fn = facts.need_fn(path)
+        run.touch(fn)
+        code, want_op, lim = ("TokenMaxExceeded", "Gt", "token_max_") if inc else ("TokenMinSubceeded", "Lt", "token_min_")
+        short = path.replace("::handler", "").replace("pinocchio::instructions::", "pino:").replace("instructions::", "anchor:")
+        found = {}
+        for at in A.atoms(fn):
+            if code not in (at.true_codes | at.false_codes) or at.true_fail == at.false_fail:
+                continue
+            for (op, a, b) in fail_conditions(at):
+                for (o, val, limit) in ((op, a, b), (A.SWAP[op], b, a)):
+                    n = arg_name(limit)
+                    if not n or not n.startswith(lim) or o != want_op:
+                        continue
+                    side = n[-1]
+                    keep = at.false_targets if at.true_fail else at.true_targets
+                    must = not cfg.success_reach(fn, 0, cut_edges={(at.block, k) for k in keep})
+                    # the compared amount is that side's token delta (possibly through the transfer-fee helper of that side's mint)
+                    idx = "0" if side == "a" else "1"
+                    ok_val = any(x[0] == "field" and x[2] == idx and x[1][0] in ("q", "call") and is_call(strip(x[1]), "calculate_liquidity_token_deltas") or
+                                 (x[0] == "field" and x[2] == idx and is_call(strip(x[1]), "pino_calculate_liquidity_token_deltas")) for x in subterms(val))
+                    if path.startswith("instructions::"):
+                        found[side] = (must, ok_val)
+                    else:
+                        found[side] = (must, True)
+        for side in "ab":
+            must, ok_val = found.get(side, (False, False))
+            run.check("R3", "limit-always-%s@%s" % (side, short), must and ok_val,
+                      "%s: the %s%s check is %s" % (path, lim, side, "missing" if side not in found else ("not applied on every success path" if not must else "not applied to that side's token delta")),
+                      loc=fn.loc(), detail="%s%s enforced on every success path" % (lim, side))
     # by-token-amounts: price band and estimate inputs
     fn = facts.need_fn(PI + "increase_liquidity_by_token_amounts_v2::handler")
     lo = hi = False
